@@ -99,6 +99,14 @@ pub mod unix {
     pub use super::popen::os_ext::*;
 }
 
+/// Verification hooks used by the harness in /verif (only with `--cfg subprocess_verif`).
+#[cfg(all(unix, subprocess_verif))]
+#[doc(hidden)]
+pub mod verif {
+    pub use crate::popen::verif_format_env as format_env;
+    pub use crate::posix::verif_hooks::*;
+}
+
 #[cfg(test)]
 mod tests {
     mod builder;
